@@ -815,6 +815,20 @@ class Interp:
                 is_none = outcome if isinstance(test.ops[0], ast.Is) else not outcome
                 fr.store(test.left.id, None if is_none else v.val)
 
+    def st_ImportFrom(self, st, fr):
+        import importlib
+        if st.level:
+            raise Unsupported('relative import inside a function')
+        mod = importlib.import_module(st.module)
+        for a in st.names:
+            fr.store(a.asname or a.name, getattr(mod, a.name))
+
+    def st_Import(self, st, fr):
+        import importlib
+        for a in st.names:
+            mod = importlib.import_module(a.name)
+            fr.store(a.asname or a.name.split('.')[0], mod if a.asname else importlib.import_module(a.name.split('.')[0]))
+
     def st_Break(self, st, fr):
         raise _Break()
 
@@ -932,7 +946,7 @@ class Interp:
     def st_While(self, st, fr):
         spec = self.loop_spec(st, fr)
         if spec is not None:
-            return self.loop_with_invariant(st, fr, spec)
+            return self.loop_with_invariant(st, fr, spec, None)
         n = 0
         while True:
             c = self.eval(st.test, fr)
@@ -952,8 +966,12 @@ class Interp:
         self.exec_block(st.orelse, fr)
 
     def loop_spec(self, st, fr):
-        ls = self.p.engine.loop_specs
-        return ls.get(('line', st.lineno)) or ls.get(id(st))
+        eng = self.p.engine
+        ls = eng.loop_specs
+        k = getattr(eng, 'loop_ordinals', {}).get(id(st))
+        if k is not None and ('loop', k) in ls:
+            return ls[('loop', k)]
+        return ls.get(('line', st.lineno))
 
     def st_For(self, st, fr):
         it = self.eval(st.iter, fr)
@@ -1422,6 +1440,21 @@ class Interp:
             r = m.fn(self, [fmt, arg], {})
             if r is not NotImplemented:
                 return r
+        if isinstance(fmt, str) and '%' in fmt:
+            import re as _re
+            pieces = _re.split(r'(%s|%%)', fmt)
+            argl = list(arg) if isinstance(arg, tuple) else [arg]
+            if all(pc in ('%s', '%%') or '%' not in pc for pc in pieces) and sum(1 for pc in pieces if pc == '%s') == len(argl) \
+                    and all(kind_of(a) == 'str' for a in argl) and _has_sym(tuple(argl)):
+                parts, it = [], iter(argl)
+                for pc in pieces:
+                    if pc == '%s':
+                        parts.append(next(it))
+                    elif pc == '%%':
+                        parts.append('%')
+                    elif pc:
+                        parts.append(pc)
+                return self.concat_strs(parts)
         if isinstance(fmt, str) and not _has_sym(arg) and not isinstance(arg, (Obj, SList, Opaque, SDict)):
             try:
                 return fmt % arg
@@ -1510,6 +1543,8 @@ class Interp:
         raise Unsupported(f'ordering on {ka},{kb}')
 
     def is_(self, a, b):
+        if a is b:
+            return True
         if type(a).__name__ == 'SymObj' or type(b).__name__ == 'SymObj' or (
                 isinstance(a, Opt) and type(a.val).__name__ == 'SymObj' and b is not None) or (
                 isinstance(b, Opt) and type(b.val).__name__ == 'SymObj' and a is not None):
@@ -2033,7 +2068,19 @@ class Interp:
 
     def ex_Yield(self, e, fr):
         v = self.eval(e.value, fr) if e.value is not None else None
+        hook = getattr(self.p, 'yield_hook', None)
+        if hook is not None:
+            hook(self, fr, v)
         self.p.out.append(v)
+        return None
+
+    def ex_YieldFrom(self, e, fr):
+        v = self.eval(e.value, fr)
+        for x in self.iter_items(v):
+            hook = getattr(self.p, 'yield_hook', None)
+            if hook is not None:
+                hook(self, fr, x)
+            self.p.out.append(x)
         return None
 
     def ex_ListComp(self, e, fr):
@@ -2119,8 +2166,127 @@ class Interp:
         return slice(lo, hi, st)
 
     # ---- loops with invariants
-    def loop_with_invariant(self, st, fr, spec):
-        raise Unsupported('loop invariants not wired for this target')
+    def loop_with_invariant(self, st, fr, spec, it=None):
+        """Classical cut at the loop head.  spec: {'inv': f(I, frame, itstate) -> z3 Bool, 'variant': f(I, frame) -> z3 Int (while loops),
+        'havoc': [names] (default: names assigned in the body that are bound at entry)}.  `itstate` (for loops over a symbolic list):
+        .q position of the element to be processed next, .view the ListView, .done(k) 'position k has been processed'."""
+        from . import heap as H
+        p = self.p
+        if spec.get('quantified', True):
+            p.use_quantifier_mode()
+        name = spec.get('name', f'loop@{st.lineno}')
+        is_for = isinstance(st, ast.For)
+        view = H.view_of(it) if is_for else None
+        state = _IterState(view, None)
+
+        def inv_at(q):
+            state.q = q
+            g = spec['inv'](self, fr, state)
+            return as_bool_term(g)
+
+        if 'before_entry' in spec:
+            spec['before_entry'](self, fr)
+        if is_for:
+            q0 = (view.hi - 1) if view.rev else view.lo
+            p.oblige(f'{name}.invariant_holds_on_entry', inv_at(q0))
+        else:
+            p.oblige(f'{name}.invariant_holds_on_entry', inv_at(None))
+        # havoc
+        hav = spec.get('havoc')
+        if hav is None:
+            hav = sorted({n.id for b in st.body for n in ast.walk(b) if isinstance(n, ast.Name) and isinstance(n.ctx, ast.Store)})
+        for n_ in hav:
+            try:
+                cur = fr.lookup(n_)
+            except Unsupported:
+                continue
+            fr.store(n_, self.havoc_like(cur, n_))
+        for hk in spec.get('havoc_extra', []):
+            hk(self, fr)
+        if is_for:
+            q = H._bound_var(p, 'q')
+            lo_r = (view.lo - 1) if view.rev else view.lo
+            hi_r = (view.hi - 1) if view.rev else view.hi
+            p.assume(z3.And(q >= lo_r, q <= hi_r))
+            p.assume(inv_at(q))
+            exhausted = (q == view.lo - 1) if view.rev else (q == view.hi)
+            if p.choose(z3.Not(exhausted)):
+                el = view.base.at(q)
+                if view.enum:
+                    i = (view.hi - 1 - q) if view.rev else (q - view.lo)
+                    self.assign(st.target, (Sym('int', z3.simplify(i)), el), fr)
+                else:
+                    self.assign(st.target, el, fr)
+                try:
+                    self.exec_block(st.body, fr)
+                except _Break:
+                    return
+                except _Continue:
+                    pass
+                qn = (q - 1) if view.rev else (q + 1)
+                p.oblige(f'{name}.invariant_is_preserved', inv_at(qn))
+                raise PathEnd('loop cut')
+            else:
+                self.exec_block(st.orelse, fr)
+            return
+        # while
+        p.assume(inv_at(None))
+        v0 = spec['variant'](self, fr) if 'variant' in spec else None
+        c = self.eval(st.test, fr)
+        if p.choose(truth(c)):
+            if 'at_start' in spec:
+                spec['at_start'](self, fr)
+            try:
+                self.exec_block(st.body, fr)
+            except _Break:
+                return
+            except _Continue:
+                pass
+            if 'at_end' in spec:
+                spec['at_end'](self, fr)
+            p.oblige(f'{name}.invariant_is_preserved', inv_at(None))
+            if v0 is not None:
+                v1 = spec['variant'](self, fr)
+                p.oblige(f'{name}.variant_decreases_and_stays_non_negative', z3.And(v1 < v0, v0 >= 0))
+            raise PathEnd('loop cut')
+        else:
+            self.exec_block(st.orelse, fr)
+
+    def havoc_like(self, cur, hint):
+        from . import heap as H
+        p = self.p
+        if isinstance(cur, bool):
+            return p.fresh('bool', hint)
+        if isinstance(cur, int):
+            return p.fresh('int', hint)
+        if isinstance(cur, str):
+            return p.fresh('str', hint)
+        if isinstance(cur, Sym):
+            return p.fresh(cur.kind, hint)
+        if cur is None:
+            return cur  # unknown later type: the sidecar must list it in havoc_extra
+        if isinstance(cur, Opt):
+            p.counter += 1
+            inner = self.havoc_like(cur.val, hint)
+            return Opt(z3.Bool(f'{hint}!isnone!{p.counter}'), inner)
+        if type(cur).__name__ == 'SymObj':
+            p.counter += 1
+            return H.SymObj(z3.Int(f'{hint}!ref!{p.counter}'), cur.schema)
+        if isinstance(cur, tuple):
+            return tuple(self.havoc_like(x, f'{hint}{i}') for i, x in enumerate(cur))
+        raise Unsupported(f'cannot havoc loop variable {hint} of kind {kind_of(cur)}')
+
+
+class _IterState:
+    def __init__(self, view, q):
+        self.view = view
+        self.q = q
+
+    def done(self, k):
+        v = self.view
+        if v.rev:
+            return z3.And(k > self.q, k < v.hi)
+        return z3.And(k >= v.lo, k < self.q)
 
 
 class _LazyGen:
@@ -2160,12 +2326,19 @@ class _LiveIter:
         raise StopIteration
 
 
+# functions / methods that a scan-loop test may call: they have no side effects (builtins, and repo helpers under a pure contract)
+PURE_CALL_NAMES = {'isinstance', 'len', 'hasattr', 'getattr', 'normalize'}
+PURE_METHOD_NAMES = {'startswith', 'endswith', 'lower', '_normalize'}
+
+
 def _is_pure(e):
     """syntactic purity: no calls except attribute reads / comparisons / constant containers / isinstance"""
     for n in ast.walk(e):
         if isinstance(n, ast.Call):
             f = n.func
-            if isinstance(f, ast.Name) and f.id in ('isinstance', 'len', 'hasattr', 'getattr'):
+            if isinstance(f, ast.Name) and f.id in PURE_CALL_NAMES:
+                continue
+            if isinstance(f, ast.Attribute) and f.attr in PURE_METHOD_NAMES:
                 continue
             return False
         if isinstance(n, (ast.Yield, ast.YieldFrom, ast.Await, ast.NamedExpr, ast.Lambda)):
@@ -2189,9 +2362,8 @@ def _load(t):
 
 def _is_generator(node):
     for n in ast.walk(node):
-        if isinstance(n, (ast.Yield, ast.YieldFrom)):
-            # make sure it is not inside a nested def
-            return _owns(node, n)
+        if isinstance(n, (ast.Yield, ast.YieldFrom)) and _owns(node, n):
+            return True
     return False
 
 
